@@ -1575,7 +1575,9 @@ impl TransactionBuilder {
     }
 
     pub fn get_reference_inputs(&self) -> TransactionInputs {
-        let mut inputs: HashSet<TransactionInput> = HashSet::new();
+        // an ordered set: the emitted order must not depend on per-process hash seeds, so that building
+        // the same builder twice yields the same bytes (and the same transaction hash)
+        let mut inputs: BTreeSet<TransactionInput> = BTreeSet::new();
 
         let mut add_ref_inputs_set = |ref_inputs: TransactionInputs| {
             for input in &ref_inputs {
